@@ -151,7 +151,9 @@ fn case_fn(case: &mut Case, base: &Path) -> CaseResult {
     let ops = vec![("main.graphql".to_string(), canon_op(&doc))];
     let detail = json!({"sdl": sdl, "introspection": js, "operations": ops[0].1, "fault": fault.as_ref().map(|f| json!({"rule": f.label, "where": f.class}))});
     let pa = write_variant(base, "schema.graphqls", &sdl, &sy, mode, &ops);
-    let pb = write_variant(base, "schema.json", &js, &sy, mode, &ops);
+    // the introspection route is chosen by the `.json` extension, whatever else the name contains
+    let json_name = *case.ch.pick(&["schema.json", "schema.json", "graphql.schema.json", "api.v2.introspection.json"]);
+    let pb = write_variant(base, json_name, &js, &sy, mode, &ops);
     let res = (|| -> CaseResult {
         let ra = run_cli(&pa.dir, &["check", "--output-format", "json"]);
         let rb = run_cli(&pb.dir, &["check", "--output-format", "json"]);
